@@ -87,11 +87,9 @@ func runConc(a []string) string {
 	}
 	shared := sw.ts
 	sharedBefore := sw.obsAll()
-	// sequential oracle
-	oracle := make([][]string, len(gprogs))
-	for i, p := range gprogs {
-		oracle[i] = runShared(dt, shared, p, false)
-	}
+	// the concurrent run comes FIRST (library-internal state that is initialised lazily — the
+	// scalar pools, say — is then touched for the first time by racing goroutines); the sequential
+	// oracle (every program alone, on the same shared tensors) is computed afterwards
 	r0 := raceReports()
 	got := make([][]string, len(gprogs))
 	var wg sync.WaitGroup
@@ -106,8 +104,14 @@ func runConc(a []string) string {
 	}
 	close(start)
 	wg.Wait()
+	races := raceReports() - r0
+	sharedAfter := (&world{dt: dt, ts: shared}).obsAll()
+	oracle := make([][]string, len(gprogs))
+	for i, p := range gprogs {
+		oracle[i] = runShared(dt, shared, p, false)
+	}
 	var sb strings.Builder
-	fmt.Fprintf(&sb, "races=%d", raceReports()-r0)
+	fmt.Fprintf(&sb, "races=%d", races)
 	for i := range gprogs {
 		res := "same"
 		for k := range oracle[i] {
@@ -121,7 +125,7 @@ func runConc(a []string) string {
 		}
 		fmt.Fprintf(&sb, " g%d=%s", i, res)
 	}
-	if (&world{dt: dt, ts: shared}).obsAll() == sharedBefore {
+	if sharedAfter == sharedBefore {
 		sb.WriteString(" shared=same")
 	} else {
 		sb.WriteString(" shared=changed")
@@ -205,6 +209,19 @@ func concOp(r *rng, family string, priv int) string {
 		}
 	case "format":
 		return fmt.Sprintf("fmt:%d", r.intn(5))
+	case "errpath":
+		// calls that must FAIL (a reuse tensor of the wrong size: private tensor 6 is 2x2) between calls
+		// that succeed with a private reuse tensor (7 is 3x3): error paths hand pooled objects back too
+		switch r.intn(4) {
+		case 0:
+			return fmt.Sprintf("bin:add:%d:%d:reuse.6", sq, priv)
+		case 1:
+			return fmt.Sprintf("lin:matmul:%d:%d:reuse.7", sq, []int{0, 1}[r.intn(2)])
+		case 2:
+			return fmt.Sprintf("bin:mul:%d:%d:reuse.7", sq, priv)
+		default:
+			return fmt.Sprintf("bins:add:%d:2:left:reuse.6", sq)
+		}
 	case "private":
 		// operations that mutate, on private tensors only
 		switch r.intn(5) {
@@ -223,7 +240,8 @@ func concOp(r *rng, family string, priv int) string {
 	panic("family")
 }
 
-var concFamilies = []string{"access", "arith", "reduce", "lin", "dot", "dotvm", "shapeops", "format", "private"}
+// (arith first: the first racing goroutines of the process then meet the lazily initialised scalar pools)
+var concFamilies = []string{"arith", "access", "reduce", "lin", "dot", "dotvm", "shapeops", "format", "errpath", "private"}
 
 func genC18(tier string, r *rng, emit func(string)) {
 	reps := 6
@@ -237,13 +255,16 @@ func genC18(tier string, r *rng, emit func(string)) {
 			for _, g := range []int{2, 4, 8, 16} {
 				for k := 0; k < reps; k++ {
 					dt := []string{"f64", "f32", "i"}[r.intn(3)]
-					if fam == "lin" || fam == "dot" || fam == "dotvm" {
+					if fam == "lin" || fam == "dot" || fam == "dotvm" || fam == "errpath" {
 						dt = []string{"f64", "f32"}[r.intn(2)]
 					}
 					progs := make([]string, g)
 					for i := range progs {
 						// private tensor is index 5 in every goroutine's world
 						ops := []string{fmt.Sprintf("new:rm:3,3:%d", 40+i)}
+						if fam == "errpath" {
+							ops = append(ops, "new:rm:2,2:0", "new:rm:3,3:0") // private tensors 6 (wrong size) and 7
+						}
 						n := r.rangeInt(3, 8)
 						for j := 0; j < n; j++ {
 							f := fam
